@@ -580,9 +580,9 @@ class Repo:
                 elts = sl.elts if isinstance(sl, ast.Tuple) else [sl]
                 for e in elts:
                     self._ann(m, e, outer_cls, out)
-            elif head in ('Awaitable', 'Type', 'List', 'Dict', 'Callable', 'Tuple', 'AsyncGenerator', 'Generator',
-                          'Coroutine'):
-                r = self.resolve_expr(m, ann.value)
+            elif head in ('List', 'Dict', 'Set', 'Tuple', 'list', 'dict', 'set', 'tuple', 'Deque', 'FrozenSet'):
+                out.append(External('builtins.' + head.lower()))
+            elif head in ('Awaitable', 'Type', 'Callable', 'AsyncGenerator', 'Generator', 'Coroutine'):
                 out.append(('generic', head, ann))
             return
         if isinstance(ann, ast.BinOp) and isinstance(ann.op, ast.BitOr):
